@@ -14,7 +14,7 @@ from hypergraph.graph.validation import GraphConfigError  # noqa: E402
 
 FLAWS = ["unknown_target", "unknown_target_multi", "dup_producer", "dup_node", "bad_node_name", "bad_output_name", "bad_graph_name",
          "inconsistent_default", "wait_for_unknown", "edge_unknown_node", "edge_unknown_value", "type_mismatch", "missing_annotation",
-         "gate_self_target", "dup_producer_two_names", "dup_producer_two_gates", "bad_graph_output_name"]
+         "gate_self_target", "dup_producer_two_names", "dup_producer_two_gates", "bad_graph_output_name", "dup_output_in_node"]
 
 
 def typed_chain(rng: random.Random) -> dict:
@@ -283,6 +283,15 @@ def inject(rng: random.Random, program: list[dict], flaw: str, gi: int) -> list[
         if not c:
             return None
         rng.choice(c)["dataOuts"][0] = rng.choice(["has-dash", "for", "9x"])
+    elif flaw == "dup_output_in_node":
+        # one node declaring the same output name twice (the second value would silently overwrite the first)
+        c = [n for n in fns if n.get("dataOuts")]
+        if not c:
+            return None
+        n = rng.choice(c)
+        o = n["dataOuts"][0]
+        n["dataOuts"] = [o, o] if len(n["dataOuts"]) == 1 or rng.random() < 0.5 else n["dataOuts"] + [o]
+        n["body"] = {"b": "multi", "t": n["name"], "k": len(n["dataOuts"])}
     elif flaw == "bad_graph_name":
         g["name"] = rng.choice(["a.b", "a/b"])
     elif flaw == "inconsistent_default":
@@ -439,7 +448,7 @@ class C19(Prop):
             order = rng.sample(FLAWS, len(FLAWS))
             if rng.random() < 0.6:
                 # flaw classes that need a particular structure are tried first (the generic ones apply almost everywhere)
-                rare = ["bad_graph_output_name", "dup_producer_two_gates", "dup_producer_two_names", "inconsistent_default", "type_mismatch", "missing_annotation",
+                rare = ["bad_graph_output_name", "dup_output_in_node", "dup_producer_two_gates", "dup_producer_two_names", "inconsistent_default", "type_mismatch", "missing_annotation",
                         "unknown_target_multi", "edge_unknown_node", "edge_unknown_value", "dup_producer", "gate_self_target", "unknown_target"]
                 rng.shuffle(rare)
                 order = rare + [f for f in order if f not in rare]
